@@ -3,6 +3,7 @@
 The engines run the same definitions the theorems in `KyroModel/Theorems` are about.
 -/
 import Driver.Tiered
+import Driver.QCacheEng
 
 open Driver
 
@@ -23,4 +24,5 @@ def main (args : List String) : IO UInt32 := do
   let stdout ← IO.getStdout
   match args with
   | ["tiered"] => loop stdin stdout Tiered.step none; return 0
+  | ["qcache"] => loop stdin stdout QCacheEng.step none; return 0
   | _ => IO.eprintln "usage: kyro_driver <engine>"; return 2
